@@ -13,7 +13,7 @@ theorem exprOK_of_C02 {ms : MacroSem} (hms : MsOK ms) : ExprOK ms (fun σ e => W
   exact expr_correct_fixed ms σ env e vC ce henv hms hwf hev hce
 
 mutual
-theorem WFE_of_static (ms : MacroSem) {c : Ctx} {σ : MState} (hinv : SInv c σ) :
+theorem WFE_of_static (ms : MacroSem) {c : Ctx} {σ : MState} (hinv : SInv c σ) (himm : ImmsCur c σ) :
     (e : CExpr) → {v : Val} → WFES c e = true → evalC ms σ e = .ok v → WFE σ e = true
   | .reg n k t, v, hs, _ => by
       simp only [WFES, wfRegS] at hs
@@ -29,7 +29,7 @@ theorem WFE_of_static (ms : MacroSem) {c : Ctx} {σ : MState} (hinv : SInv c σ)
   | .imm l s, v, hs, _ => by
       simp only [WFES, List.contains_eq_mem, decide_eq_true_eq] at hs
       simp only [WFE_imm, decide_eq_true_eq]
-      exact hinv.imms l hs
+      exact himm l hs
   | .lit x h sfx, v, hs, _ => by simpa only [WFES, WFE_lit] using hs
   | .var n t, v, hs, hev => by
       simp only [WFES, wfVarS] at hs
@@ -49,47 +49,47 @@ theorem WFE_of_static (ms : MacroSem) {c : Ctx} {σ : MState} (hinv : SInv c σ)
       rw [evalC_cast] at hev
       obtain ⟨v1, h1, _⟩ := bind_ok hev
       simp only [WFE_cast, Bool.and_eq_true]
-      exact ⟨WFE_of_static ms hinv e hs.1 h1, hs.2⟩
+      exact ⟨WFE_of_static ms hinv himm e hs.1 h1, hs.2⟩
   | .un op e, v, hs, hev => by
       simp only [WFES] at hs
       rw [evalC_un] at hev
       obtain ⟨v1, h1, _⟩ := bind_ok hev
       simp only [WFE_un]
-      exact WFE_of_static ms hinv e hs h1
+      exact WFE_of_static ms hinv himm e hs h1
   | .not e, v, hs, hev => by
       simp only [WFES] at hs
       rw [evalC_not] at hev
       obtain ⟨v1, h1, _⟩ := bind_ok hev
       simp only [WFE_not]
-      exact WFE_of_static ms hinv e hs h1
+      exact WFE_of_static ms hinv himm e hs h1
   | .bin op a b, v, hs, hev => by
       simp only [WFES, Bool.and_eq_true] at hs
       rw [evalC_bin] at hev
       obtain ⟨v1, h1, h⟩ := bind_ok hev
       obtain ⟨v2, h2, _⟩ := bind_ok h
       simp only [WFE_bin, Bool.and_eq_true]
-      exact ⟨WFE_of_static ms hinv a hs.1 h1, WFE_of_static ms hinv b hs.2 h2⟩
+      exact ⟨WFE_of_static ms hinv himm a hs.1 h1, WFE_of_static ms hinv himm b hs.2 h2⟩
   | .shift op a b, v, hs, hev => by
       simp only [WFES, Bool.and_eq_true] at hs
       rw [evalC_shift] at hev
       obtain ⟨v1, h1, h⟩ := bind_ok hev
       obtain ⟨v2, h2, _⟩ := bind_ok h
       simp only [WFE_shift, Bool.and_eq_true]
-      exact ⟨⟨WFE_of_static ms hinv a hs.1.1 h1, WFE_of_static ms hinv b hs.1.2 h2⟩, hs.2⟩
+      exact ⟨⟨WFE_of_static ms hinv himm a hs.1.1 h1, WFE_of_static ms hinv himm b hs.1.2 h2⟩, hs.2⟩
   | .cmp op a b, v, hs, hev => by
       simp only [WFES, Bool.and_eq_true] at hs
       rw [evalC_cmp] at hev
       obtain ⟨v1, h1, h⟩ := bind_ok hev
       obtain ⟨v2, h2, _⟩ := bind_ok h
       simp only [WFE_cmp, Bool.and_eq_true]
-      exact ⟨WFE_of_static ms hinv a hs.1 h1, WFE_of_static ms hinv b hs.2 h2⟩
+      exact ⟨WFE_of_static ms hinv himm a hs.1 h1, WFE_of_static ms hinv himm b hs.2 h2⟩
   | .log op a b, v, hs, hev => by
       simp only [WFES, Bool.and_eq_true] at hs
       rw [evalC_log] at hev
       obtain ⟨v1, h1, h⟩ := bind_ok hev
       obtain ⟨v2, h2, _⟩ := bind_ok h
       simp only [WFE_log, Bool.and_eq_true]
-      exact ⟨WFE_of_static ms hinv a hs.1 h1, WFE_of_static ms hinv b hs.2 h2⟩
+      exact ⟨WFE_of_static ms hinv himm a hs.1 h1, WFE_of_static ms hinv himm b hs.2 h2⟩
   | .tern x a b, v, hs, hev => by
       simp only [WFES, Bool.and_eq_true] at hs
       rw [evalC_tern] at hev
@@ -98,19 +98,19 @@ theorem WFE_of_static (ms : MacroSem) {c : Ctx} {σ : MState} (hinv : SInv c σ)
       obtain ⟨v1, h1, h⟩ := bind_ok h
       obtain ⟨v2, h2, _⟩ := bind_ok h
       simp only [WFE_tern, Bool.and_eq_true]
-      exact ⟨⟨WFE_of_static ms hinv x hs.1.1 h0, WFE_of_static ms hinv a hs.1.2 h1⟩,
-        WFE_of_static ms hinv b hs.2 h2⟩
+      exact ⟨⟨WFE_of_static ms hinv himm x hs.1.1 h0, WFE_of_static ms hinv himm a hs.1.2 h1⟩,
+        WFE_of_static ms hinv himm b hs.2 h2⟩
   | .macro name args ret params, v, hs, hev => by
       simp only [WFES, Bool.and_eq_true] at hs
       rw [evalC_macro] at hev
       obtain ⟨vs, h1, _⟩ := bind_ok hev
       simp only [WFE_macro, Bool.and_eq_true]
-      exact ⟨WFEs_of_static ms hinv args params hs.1 h1, hs.2⟩
+      exact ⟨WFEs_of_static ms hinv himm args params hs.1 h1, hs.2⟩
   | .load s w t, v, _, _ => by simp only [WFE_load]
   | .post _ _ _, v, hs, _ => by simp [WFES] at hs
   | .call _ _ _ _, v, hs, _ => by simp [WFES] at hs
   | .stmtexpr _ _ _, v, hs, _ => by simp [WFES] at hs
-theorem WFEs_of_static (ms : MacroSem) {c : Ctx} {σ : MState} (hinv : SInv c σ) :
+theorem WFEs_of_static (ms : MacroSem) {c : Ctx} {σ : MState} (hinv : SInv c σ) (himm : ImmsCur c σ) :
     (as : List CExpr) → (ps : List CT) → {vs : List Val} → WFESs c as ps = true →
       evalCArgs ms σ as ps = .ok vs → WFEs σ as ps = true
   | [], _, vs, _, _ => by simp only [WFEs_nil]
@@ -122,14 +122,14 @@ theorem WFEs_of_static (ms : MacroSem) {c : Ctx} {σ : MState} (hinv : SInv c σ
       obtain ⟨v2, _, h⟩ := bind_ok h
       obtain ⟨v3, h3, _⟩ := bind_ok h
       simp only [WFEs_cons, Bool.and_eq_true]
-      exact ⟨⟨WFE_of_static ms hinv a hs.1.1 h1, hs.1.2⟩, WFEs_of_static ms hinv as ps hs.2 h3⟩
+      exact ⟨⟨WFE_of_static ms hinv himm a hs.1.1 h1, hs.1.2⟩, WFEs_of_static ms hinv himm as ps hs.2 h3⟩
 end
 
 /-- the static check discharges `WFHyp` for the well-formedness predicate of C02 -/
 theorem WFHyp_of_static {ms : MacroSem} {c : Ctx} {es : List CExpr} (h : es.all (WFES c) = true) :
     WFHyp ms (fun σ e => WFE σ e = true) c es := by
-  intro e he σ vC hinv hev
-  exact WFE_of_static ms hinv e (List.all_eq_true.1 h e he) hev
+  intro e he σ vC hinv himm hev
+  exact WFE_of_static ms hinv himm e (List.all_eq_true.1 h e he) hev
 
 /-- **C05 composed with C02, statements**: no abstract hypothesis left -/
 theorem stmt_correct_fixed_closed {ms : MacroSem} (hms : MsOK ms) {c : Ctx} {env : CEnv}
@@ -140,7 +140,8 @@ theorem stmt_correct_fixed_closed {ms : MacroSem} (hms : MsOK ms) {c : Ctx} {env
     ∃ σIL', ExecIL ms eff σIL σIL' ∧ Inv c σC' σIL' :=
   stmt_correct_fixed (exprOK_of_C02 hms) henv hc hcomp hwf (WFHyp_of_static hwfe) hinv hex
 
-/-- **C05 composed with C02, whole behaviour** -/
+/-- **C05 composed with C02, whole behaviour** (final states: `StRel`, which does not relate the immediates, see
+    `prog_correct_fixed`) -/
 theorem prog_correct_fixed_closed {ms : MacroSem} (hms : MsOK ms) {c : Ctx} (hc : c.ok = true)
     {prog : List CStmt} {eff : ILEffect} (hcomp : compileProg Cfg.fixed prog = .ok eff)
     (himms : ∀ l, l ∈ c.imms ↔ l ∈ progImms prog)
@@ -162,7 +163,8 @@ theorem prog_asCode_eq_fixed_closed (prog : List CStmt)
     compileProg Cfg.asCode prog = compileProg Cfg.fixed prog :=
   prog_asCode_eq_fixed prog (exprT2_of_C02 _) h
 
-/-- **T1 + T2 closed**: on the carve-out the lowering AS CODED preserves the C semantics -/
+/-- **T1 + T2 closed**: on the carve-out the lowering AS CODED preserves the C semantics (final states: `StRel`, which
+    does not relate the immediates, see `prog_correct_fixed`) -/
 theorem prog_correct_asCode_closed {ms : MacroSem} (hms : MsOK ms) {c : Ctx} (hc : c.ok = true)
     {prog : List CStmt} {eff : ILEffect}
     (hcarve : CarveSs (CarveE (assignedOfList prog)) { assigned := assignedOfList prog, cfg := Cfg.fixed } prog = true)
